@@ -25,7 +25,8 @@ Record cst := Cst {
   c_tbl : list entry;      (* Proto.DbgLocals *)
   c_blocks : list block;   (* fc.Block and its Parent chain, innermost first *)
   c_regtop : Z;            (* fc.regTop *)
-  c_pc : Z }.              (* number of instructions emitted = Code.LastPC()+1 *)
+  c_pc : Z;                (* number of instructions emitted = Code.LastPC()+1 *)
+  c_keep : list nat }.     (* the hidden loop variables a for statement ends after its loop instruction *)
 
 (* what the compiler does, as far as this bookkeeping can see it *)
 Inductive cev :=
@@ -33,7 +34,9 @@ Inductive cev :=
 | CReg (b : binding)       (* RegisterLocalVar *)
 | CEnter                   (* EnterBlock *)
 | CLeave                   (* LeaveBlock (EndScope, pop, reset regTop) *)
-| CStartHere (k : nat).    (* StartLocalVarsHere(k) *)
+| CStartHere (k : nat)     (* StartLocalVarsHere(k) *)
+| CLeaveKeep (k : nat)     (* hidden := Block.dbgLocals[:k]; LeaveBlock() *)
+| CEndKept.                (* EndLocalVarsHere(hidden) *)
 
 Definition set_end (pc : Z) (e : entry) : entry :=
   Entry (e_name e) (e_start e) pc (e_reg e) (e_val e).
@@ -52,33 +55,41 @@ Fixpoint start_here (k : nat) (pc : Z) (t : list entry) (from : nat) : list entr
   | S j => start_here j pc (set_nth t from (set_start pc)) (S from)
   end.
 
+Definition leave (s : cst) (keep : list nat) : cst :=
+  match c_blocks s with
+  | blk :: rest =>
+      Cst (end_scope (b_dbg blk) (c_pc s) (c_tbl s)) rest
+          (match rest with p :: _ => b_off p + b_n p | [] => c_regtop s end) (c_pc s) keep
+  | [] => s
+  end.
+
 Definition cstep (s : cst) (e : cev) : cst :=
   match e with
-  | CInstr _ => Cst (c_tbl s) (c_blocks s) (c_regtop s) (c_pc s + 1)
+  | CInstr _ => Cst (c_tbl s) (c_blocks s) (c_regtop s) (c_pc s + 1) (c_keep s)
   | CReg b =>
       match c_blocks s with
       | blk :: rest =>
           let ret := b_off blk + b_n blk in
           Cst (c_tbl s ++ [Entry (fst b) (c_pc s) 0 ret (snd b)])
               (Block (b_off blk) (b_n blk + 1) (b_dbg blk ++ [List.length (c_tbl s)]) :: rest)
-              (c_regtop s + 1) (c_pc s)
+              (c_regtop s + 1) (c_pc s) (c_keep s)
       | [] => s
       end
-  | CEnter => Cst (c_tbl s) (Block (c_regtop s) 0 [] :: c_blocks s) (c_regtop s) (c_pc s)
-  | CLeave =>
+  | CEnter => Cst (c_tbl s) (Block (c_regtop s) 0 [] :: c_blocks s) (c_regtop s) (c_pc s) (c_keep s)
+  | CLeave => leave s (c_keep s)
+  | CLeaveKeep k =>
       match c_blocks s with
-      | blk :: rest =>
-          Cst (end_scope (b_dbg blk) (c_pc s) (c_tbl s)) rest
-              (match rest with p :: _ => b_off p + b_n p | [] => c_regtop s end) (c_pc s)
+      | blk :: _ => leave s (firstn k (b_dbg blk))
       | [] => s
       end
+  | CEndKept => Cst (end_scope (c_keep s) (c_pc s) (c_tbl s)) (c_blocks s) (c_regtop s) (c_pc s) []
   | CStartHere k =>
-      Cst (start_here k (c_pc s) (c_tbl s) (List.length (c_tbl s) - k)) (c_blocks s) (c_regtop s) (c_pc s)
+      Cst (start_here k (c_pc s) (c_tbl s) (List.length (c_tbl s) - k)) (c_blocks s) (c_regtop s) (c_pc s) (c_keep s)
   end.
 
 Definition crun (evs : list cev) (s : cst) : cst := fold_left cstep evs s.
 
-Definition cst0 : cst := Cst [] [Block 0 0 []] 0 0.
+Definition cst0 : cst := Cst [] [Block 0 0 []] 0 0 [].
 
 (* the pc of the instruction observed as point p *)
 Fixpoint point_pc (evs : list cev) (pc : Z) (p : Z) : option Z :=
@@ -139,11 +150,13 @@ Fixpoint compile (its : items) : list cev :=
   | IPoint p r => CInstr None :: CInstr (Some p) :: compile r
   | IPad r => CInstr None :: compile r
   | IBlock b r => CEnter :: compile b ++ CLeave :: compile r          (* compileBlock *)
-  | IFor parts late b r =>             (* compileNumberForStmt / compileGenericForStmt *)
+  | IFor parts late it b r =>          (* compileNumberForStmt / compileGenericForStmt *)
       CEnter ::
       flat_map (fun x => CReg (fst x) :: CInstr None :: cpts (snd x)) parts ++
       CStartHere (List.length parts) :: CInstr None (* FORPREP / JMP *) :: map CReg late ++
-      compile b ++ CLeave :: CInstr None (* FORLOOP / TFORLOOP *) :: compile r
+      compile b ++ CLeaveKeep (List.length parts) ::
+      map (fun p => CInstr (Some p)) it (* TFORLOOP: calls the iterator *) ++
+      CInstr None (* FORLOOP / JMP *) :: CEndKept :: compile r
   | IRepeat b c r =>                                                 (* compileRepeatStmt *)
       CEnter :: compile b ++ cpts c ++ CInstr None :: CLeave :: compile r
   end.
@@ -171,7 +184,7 @@ Definition cstep_old (s : cst) (e : cev) : cst :=
       | blk :: rest =>
           Cst (end_scope (map (fun k => Z.to_nat (b_off blk) + k)%nat (seq 0 (Z.to_nat (b_n blk))))
                          (c_pc s - 1) (c_tbl s)) rest
-              (match rest with p :: _ => b_off p + b_n p | [] => c_regtop s end) (c_pc s)
+              (match rest with p :: _ => b_off p + b_n p | [] => c_regtop s end) (c_pc s) (c_keep s)
       | [] => s
       end
   | _ => cstep s e
